@@ -18,7 +18,10 @@ engine `nesting` (one `Nesting[int,int]` per case):
   sets        -> - | s:e:v,s:e:v|s:e:v|…         (Sets(); each set in Scan order)
 
 The property oracles are naive references over the history of inserts; they never look at the
-model.
+model.  They never excuse a failure; they only NAME the symptom so that known findings can be
+matched narrowly (see known_findings.json): `after-adjacent-span:` prefixes every intersect
+failure that follows an insert spanning two adjacent entries; `nesting-equal-end-overwrite` and
+`nesting-partial-overlap` name the two Nesting symptoms.
 -/
 namespace PCV.Engines.IntervalEng
 open PCV PCV.Wire PCV.Interval
@@ -34,7 +37,7 @@ def intersectStep (m : IMap) (line : String) : IMap × String :=
   | ["ins", sa, sb, sv] =>
     match sa.toInt?, sb.toInt?, sv.toInt? with
     | some a, some b, some v =>
-      match m.insert asIs a b v with
+      match m.insert current a b v with
       | (m', some true) => (m', "true")
       | (m', some false) => (m', "false")
       | (m', none) => (m', s!"panic interval: start ({a}) > end ({b})")
@@ -82,53 +85,72 @@ def sortedDisjoint : List (Int × Int × List Int) → Bool
   | [(a, b, _)] => a ≤ b
   | (a, b, _) :: (c, d, w) :: rest => a ≤ b && b < c && sortedDisjoint ((c, d, w) :: rest)
 
-def intersectSpec (h : Hist) (line ans : String) : Hist × String :=
+def covered (h : Hist) (p : Int) : Bool := h.any fun (s, e, _) => s ≤ p && p ≤ e
+
+/-- Does `[a, b]` span two ADJACENT entries of the map that represents `h`?  Entry boundaries
+    between two covered points `q | q+1` are exactly the ends (`e = q`) and starts (`s = q+1`) of
+    the inserted intervals. -/
+def spansAdjacent (h : Hist) (a b : Int) : Bool :=
+  (h.flatMap fun (s, e, _) => [e, s - 1]).any fun q =>
+    a ≤ q && q + 1 ≤ b && covered h q && covered h (q + 1)
+
+/-- oracle state: the inserts so far, and whether one of them spanned two adjacent entries
+    (the trigger of the known gap defect; used ONLY to label failures, never to excuse them) -/
+structure ISpec where
+  hist : Hist := []
+  tainted : Bool := false
+
+def ISpec.fail (st : ISpec) (why : String) : String :=
+  if st.tainted then s!"fails after-adjacent-span: {why}" else s!"fails {why}"
+
+def intersectSpec (st : ISpec) (line ans : String) : ISpec × String :=
+  let h := st.hist
   match words line with
   | ["ins", sa, sb, sv] =>
     match sa.toInt?, sb.toInt?, sv.toInt? with
     | some a, some b, some v =>
       if a > b then
-        (h, if ans.startsWith "panic" then "holds" else s!"fails insert-with-start>end-did-not-panic {ans}")
+        (st, if ans.startsWith "panic" then "holds" else st.fail s!"insert-with-start>end-did-not-panic {ans}")
       else
         let want := naiveDisjoint h a b
-        let h' := h ++ [(a, b, v)]
-        if ans == toString want then (h', "holds")
-        else (h', s!"fails disjoint-flag want {want} got {ans}")
-    | _, _, _ => (h, "bad-op")
+        let st' : ISpec := ⟨h ++ [(a, b, v)], st.tainted || spansAdjacent h a b⟩
+        if ans == toString want then (st', "holds")
+        else (st', st.fail s!"disjoint-flag want {want} got {ans}")
+    | _, _, _ => (st, "bad-op")
   | ["get", sp] =>
     match sp.toInt? with
     | some p =>
       let want := naiveGet h p
       match words ans with
       | ["none"] =>
-        (h, if want.isEmpty then "holds" else s!"fails get {p}: want [{showVals want}] got none")
+        (st, if want.isEmpty then "holds" else st.fail s!"get {p}: want [{showVals want}] got none")
       | [ss, se, svs] =>
         match ss.toInt?, se.toInt?, parseVals svs with
         | some s, some e, some vs =>
-          if vs != want then (h, s!"fails get {p}: want [{showVals want}] got [{showVals vs}]")
-          else if !(s ≤ p && p ≤ e) then (h, s!"fails get {p}: entry [{s},{e}] does not contain the point")
-          else (h, "holds")
-        | _, _, _ => (h, "fails bad-answer")
-      | _ => (h, "fails bad-answer")
-    | none => (h, "bad-op")
+          if vs != want then (st, st.fail s!"get {p}: want [{showVals want}] got [{showVals vs}]")
+          else if !(s ≤ p && p ≤ e) then (st, st.fail s!"get {p}: entry [{s},{e}] does not contain the point")
+          else (st, "holds")
+        | _, _, _ => (st, "fails bad-answer")
+      | _ => (st, "fails bad-answer")
+    | none => (st, "bad-op")
   | ["ents"] =>
-    if ans == "-" then (h, if h.isEmpty then "holds" else "fails entries-empty-after-inserts")
+    if ans == "-" then (st, if h.isEmpty then "holds" else st.fail "entries-empty-after-inserts")
     else
       match (ans.splitOn ";").mapM parseEntry with
       | some es =>
-        if !sortedDisjoint es then (h, "fails entries-not-sorted-disjoint")
+        if !sortedDisjoint es then (st, st.fail "entries-not-sorted-disjoint")
         else
           -- every entry carries the naive value list at both of its endpoints
           match es.find? (fun (a, b, vs) => naiveGet h a != vs || naiveGet h b != vs) with
-          | some (a, b, _) => (h, s!"fails entry [{a},{b}] values differ from the inserted intervals covering it")
-          | none => (h, "holds")
-      | none => (h, "fails bad-answer")
-  | ["dump"] => (h, "skip")
-  | _ => (h, "bad-op")
+          | some (a, b, _) => (st, st.fail s!"entry [{a},{b}] values differ from the inserted intervals covering it")
+          | none => (st, "holds")
+      | none => (st, "fails bad-answer")
+  | ["dump"] => (st, "skip")
+  | _ => (st, "bad-op")
 
 def intersectEngine : Engine :=
   { σ := IMap, init := {}, step := intersectStep,
-    τ := Hist, specInit := [], spec := intersectSpec }
+    τ := ISpec, specInit := {}, spec := intersectSpec }
 
 /-! ### nesting: model -/
 
@@ -170,6 +192,30 @@ def laminarSet : List (Int × Int × Int) → Bool
 def tripleLe (x y : Int × Int × Int) : Bool :=
   x.1 < y.1 || (x.1 == y.1 && (x.2.1 < y.2.1 || (x.2.1 == y.2.1 && x.2.2 ≤ y.2.2)))
 
+/-- two distinct intervals that overlap without one containing the other -/
+def partialOverlap (x y : Int × Int × Int) : Bool :=
+  let (a, b, _) := x
+  let (c, d, _) := y
+  (a < c && c ≤ b && b < d) || (c < a && a ≤ d && d < b)
+
+/-- all pairs of a set that are not laminar -/
+def badPairs : List (Int × Int × Int) → List ((Int × Int × Int) × (Int × Int × Int))
+  | [] => []
+  | x :: rest => ((rest.filter fun y => !laminarPair x y).map fun y => (x, y)) ++ badPairs rest
+
+/-- remove one occurrence of each element of `ys` from `xs` -/
+def removeAll (xs ys : List (Int × Int × Int)) : List (Int × Int × Int) := ys.foldl List.erase xs
+
+/-- the inserted intervals after position `i` -/
+def laterSameEnd (h : Hist) (m : Int × Int × Int) : Bool :=
+  match h.dropWhile (· != m) with
+  | [] => false
+  | _ :: later => later.any fun (_, e, _) => e == m.2.1
+
+/-- The verdict lists EVERY failing clause, the two known symptom classes by name:
+    `nesting-equal-end-overwrite` (each missing interval was followed by an insert with the same
+    end) and `nesting-partial-overlap` (each non-laminar pair is a partial overlap of two distinct
+    intervals); anything else gets a different, unmatched, name. -/
 def nestingSpec (h : Hist) (line ans : String) : Hist × String :=
   match words line with
   | ["ins", sa, sb, sv] =>
@@ -182,11 +228,24 @@ def nestingSpec (h : Hist) (line ans : String) : Hist × String :=
       if ans == "-" then some [] else (ans.splitOn "|").mapM fun s => (s.splitOn ",").mapM parseTriple
     match parsed with
     | some ss =>
-      if ss.any (·.isEmpty) then (h, "fails empty-set-yielded")
-      else if !(ss.all laminarSet) then (h, "fails set-not-laminar (two intervals overlap without nesting)")
-      else if (ss.flatten.mergeSort tripleLe) != (h.mergeSort tripleLe) then
-        (h, s!"fails sets-do-not-partition-the-inserted-intervals ({ss.flatten.length} of {h.length} present)")
-      else (h, "holds")
+      let present := ss.flatten
+      let missing := removeAll h present
+      let extra := removeAll present h
+      let bad := ss.flatMap badPairs
+      let c0 := if ss.any (·.isEmpty) then ["empty-set-yielded"] else []
+      let c1 :=
+        if missing.isEmpty then []
+        else if missing.all (laterSameEnd h) then
+          [s!"nesting-equal-end-overwrite ({present.length} of {h.length} inserted intervals present)"]
+        else [s!"interval-lost-without-equal-end ({present.length} of {h.length} present)"]
+      let c2 := if extra.isEmpty then [] else [s!"interval-never-inserted ({extra.length})"]
+      let c3 :=
+        if bad.isEmpty then []
+        else if bad.all (fun (x, y) => partialOverlap x y) then
+          [s!"nesting-partial-overlap ({bad.length} pairs in one set overlap without nesting)"]
+        else ["set-not-laminar (identical intervals in one set)"]
+      let cs := c0 ++ c1 ++ c2 ++ c3
+      if cs.isEmpty then (h, "holds") else (h, "fails " ++ "; ".intercalate cs)
     | none => (h, "fails bad-answer")
   | _ => (h, "bad-op")
 
